@@ -992,6 +992,12 @@ def _run_case(spec):
                     if audit.band:
                         worst = max(audit.band, key=lambda x: x[1])
                         det += f"; in this insertion e.g. simplex {worst[0]}: |c-p|/r - 1 = {worst[1]:.3e}"
+                elif not (gap_before or audit.interior_holes) and audit.stats.get("flat_true"):
+                    cl = "tiling:sliver_hole_aftermath"
+                    det += (f"; up to here {audit.stats['flat_true']} candidate simplex(es) were skipped as almost flat (the gaps they left are "
+                            "below the 1e-8 volume tolerance of this audit, or in this very insertion): the simplices built next to them "
+                            "(hull extension, the Bowyer-Watson cavity) assume that every candidate was created - same root as the holes "
+                            "left by skipped slivers")
                 elif gap_before or audit.interior_holes:
                     cl = "tiling:sliver_hole_aftermath"
                     det += ("; BEFORE this insertion the simplices already did not cover the convex hull exactly: simplices skipped as almost "
